@@ -113,7 +113,8 @@ def t_dropout(p):
 from onnx import TensorProto as TP  # noqa: E402
 
 _NP_OF = {TP.FLOAT: "float32", TP.DOUBLE: "float64", TP.FLOAT16: "float16", TP.INT32: "int32", TP.INT64: "int64",
-          TP.UINT8: "uint8", TP.BOOL: "bool", TP.INT8: "int8", TP.STRING: "str"}
+          TP.UINT8: "uint8", TP.BOOL: "bool", TP.INT8: "int8", TP.STRING: "str", TP.INT16: "int16", TP.UINT16: "uint16",
+          TP.UINT32: "uint32", TP.UINT64: "uint64"}
 
 
 @template("cast_identity")
@@ -181,6 +182,20 @@ def t_cast_cast(p):
         S("f32_f64_f16", "T2=DOUBLE;T3=FLOAT16", mk(TP.FLOAT, TP.DOUBLE, TP.FLOAT16)),
         S("i64_f32_i64", "T2=FLOAT;T3=INT64", mk(TP.INT64, TP.FLOAT, TP.INT64)),
     ]
+    # the integer family, enumerated: T1 -> T2 -> T3 with T2 of other signedness and/or width.  integer -> integer casts wrap
+    # modulo 2^n (numpy, ORT and onnx.reference agree), so dropping the middle cast is only right when T2 keeps every value
+    # of T1 *or* T3 discards what T2 discarded
+    bits = {TP.INT8: 8, TP.UINT8: 8, TP.INT16: 16, TP.UINT16: 16, TP.INT32: 32, TP.UINT32: 32, TP.INT64: 64, TP.UINT64: 64}
+    signed = {TP.INT8, TP.INT16, TP.INT32, TP.INT64}
+    for t1 in (TP.INT8, TP.INT16, TP.INT32, TP.UINT8):
+        for t2 in (TP.UINT8, TP.UINT16, TP.UINT32, TP.UINT64, TP.INT8, TP.INT16, TP.INT64):
+            if t1 == t2:
+                continue
+            rel = "w" if bits[t2] > bits[t1] else ("n" if bits[t2] < bits[t1] else "e")
+            cls = f"int:{'s' if t1 in signed else 'u'}>{'s' if t2 in signed else 'u'}{rel}"
+            pool = [-1, -100, 5, 127, -128, 0, 100] if t1 in signed else [0, 1, 200, 255, 127, 128]
+            for t3 in (TP.INT64, TP.FLOAT):
+                out.append(S(f"int_{_NP_OF[t1]}_{_NP_OF[t2]}_{_NP_OF[t3]}", cls, mk(t1, t2, t3, rank=1, pool=pool)))
     return out
 
 
